@@ -189,11 +189,20 @@ func (s *Search) try(index uint64, tape *sim.Tape) *CaseOut {
 		if !s.vkeys[key] && len(s.Res.Violations) < 5 {
 			s.vkeys[key] = true
 			orig := tape.Recorded()
+			// the candidates run under the same watchdog as the cases
+			guarded := func(v []uint64) *CaseOut {
+				wd := time.AfterFunc(hangLimit(), func() {
+					fmt.Fprintf(os.Stderr, "\nVERIF-HANG site=%s\n", CurrentSite)
+					os.Exit(67)
+				})
+				defer wd.Stop()
+				return s.F(s.Env, sim.ReplayTape(v))
+			}
 			min := sim.Shrink(orig, func(v []uint64) bool {
-				o := s.F(s.Env, sim.ReplayTape(v))
+				o := guarded(v)
 				return o.V != nil && o.V.Key() == key
 			}, 400)
-			final := s.F(s.Env, sim.ReplayTape(min))
+			final := guarded(min)
 			v := out.V
 			if final.V != nil && final.V.Key() == key {
 				v = final.V
